@@ -60,6 +60,8 @@ func (pe *PolicyEngine) CheckIfAllowed(src, dst, protocol, port string) (bool, e
 	}
 	ingressRes, err := pe.allowedXgressConnection(srcPeer, dstPeer, true, protocol, port)
 	if err != nil {
+		// the verdict of the egress direction alone was cached under this connection's key: it is not the answer
+		pe.cache.removeConnectionResult(srcPeer, dstPeer, protocol, port)
 		return false, err
 	}
 	pe.cache.addConnectionResult(srcPeer, dstPeer, protocol, port, ingressRes)
